@@ -371,6 +371,8 @@ class StmtMixin:
 
     def ex_For(self, s, st):
         def fin(itv, s1):
+            if isinstance(itv, Opt):
+                itv = self.unwrap_opt(itv, s1, 'iter', s.lineno)
             if isinstance(itv, tuple) and len(itv) == 3 and isinstance(itv[0], str) and itv[0] == 'generator':
                 return self.exec_fused_generator(s, itv, s1)
             if isinstance(itv, Ref) and s1.obj(itv).kind == 'smap':
